@@ -326,8 +326,8 @@ func (v *FnVC) storeAddr(st *State, a *Addr, val Val, pos token.Pos) {
 	case "elem":
 		h := v.heap(st, a.Heap, HeapSort(sortOf(a.Typ)))
 		v.frameCheck("array", a.Heap, a.Ref, pos)
-		nh := Store(h, a.Ref, Store(Select(h, a.Ref), a.Idx, val.T))
-		st.heaps[a.Heap] = v.define(a.Heap, nh)
+		inner := v.define("arr_"+a.Heap, Store(Select(h, a.Ref), a.Idx, val.T))
+		st.heaps[a.Heap] = v.define(a.Heap, Store(h, a.Ref, inner))
 	case "field", "cell":
 		h := v.heap(st, a.Heap, ArrSort(sortOf(a.Typ)))
 		v.frameCheck(a.Kind, a.Heap, a.Ref, pos)
@@ -473,8 +473,10 @@ func (v *FnVC) nilCheck(p *Term, pos token.Pos) {
 }
 
 func (v *FnVC) newRef(st *State, what string) *Term {
-	ref := v.define("ref_"+what, st.alloc)
-	st.alloc = v.define("alloc", AddC(st.alloc, 1))
+	// keep "alloc@0 + n" structure visible: fresh refs are then syntactically
+	// distinct from each other and from memory that existed at entry
+	ref := st.alloc
+	st.alloc = AddC(st.alloc, 1)
 	return ref
 }
 
@@ -1120,6 +1122,8 @@ func (v *FnVC) execReturn(r *ssa.Return, st *State) {
 	}
 	// ghost variables current values
 	v.bindGhost(env, st)
+	v.ghostUpdates("exit", env, st, v.posOf(r.Pos()))
+	env.st = st
 	k := v.ord("ret")
 	v.smoke(fmt.Sprintf("smoke@ret%d", k), v.curGuard, v.posOf(r.Pos()))
 	for i, c := range v.spec.Ensures {
